@@ -77,6 +77,11 @@ class Contract:
         # obligation `fresh-result`); at call sites it then gets a new concrete reference, distinct from everything
         # the caller has seen, instead of an unknown one
         self.fresh_result = bool(d.get('fresh_result', False))
+        # on_demand: proved for this function like any postcondition, but assumed at a call site only when the
+        # caller's contract asks for it (uses = {callee target: (clause names)}): expensive quantified facts are
+        # kept out of the proofs that do not need them
+        self.on_demand = tuple(d.get('on_demand', ()))
+        self.uses = dict(d.get('uses', {}))
         self.returns_proved_by = d.get('returns_proved_by')
         if self.returns_proved_by:
             import ast as _ast, inspect as _inspect, textwrap as _tw
@@ -422,6 +427,8 @@ def apply_contract(ip: Interp, con: Contract, fn, args, kwargs, bound_cls) -> SV
     # 5. postconditions are assumed (when the result is given exactly by `returns`, only the
     #    clauses listed in `assume_at_call` add anything)
     ens = con.ensures if con.returns is None else [(n, f) for n, f in con.ensures if n in con.assume_at_call]
+    wanted = ip.shared.get('top_uses', {}).get(con.target, ())
+    ens = [(n, f) for n, f in ens if n not in con.on_demand or n in wanted]
     if ens:
         saved = ip.old_heap
         ip.old_heap = pre_heap
@@ -788,6 +795,7 @@ def verify_function(target: str, only: Optional[str] = None, timeout_ms: Optiona
         ip.top_target = target
         params = make_params(ip, con, fn)
         shared['top_params'] = params
+        shared['top_uses'] = con.uses
         if con.loops:
             fors = sorted((n.lineno, n.col_offset) for n in E.ast.walk(node) if isinstance(n, E.ast.For))
             shared['loop_specs'] = {pos: (k, con.loops[k]) for k, pos in enumerate(fors) if k in con.loops}
